@@ -227,6 +227,20 @@ pub fn record_reshape(seed: u64, tier: &str, trace: &mut Vec<Value>, rep: &mut R
         }
         let mut t = start_tensor(&shape);
         trace.push(json!({"event": "Reset", "run": run, "shape": shape}));
+        // every fifth run: other library activity first (or, for `concurrent_learn`, during the whole run)
+        let mut _background = None;
+        if run % 5 == 1 {
+            let kind = crate::disturb::KINDS[(run / 5) % crate::disturb::KINDS.len()];
+            if kind == "concurrent_learn" {
+                _background = Some(crate::disturb::Background::start());
+                rep.count("other_activity_as_meant", 1);
+            } else if crate::disturb::run(kind) {
+                rep.count("other_activity_as_meant", 1);
+            } else {
+                rep.count(&format!("other_activity_not_as_meant_{}", kind), 1);
+            }
+            trace.push(crate::disturb::event(kind));
+        }
         for _ in 0..rng.range(2, 6) {
             let n: usize = shape_dims(&t.shape).iter().product();
             let (op, to): (&str, Vec<usize>) = match if big { rng.below(7) } else { rng.below(10) } {
@@ -576,6 +590,19 @@ pub fn record_arith(seed: u64, tier: &str, trace: &mut Vec<Value>, rep: &mut Rep
         let dims: Vec<usize> = (0..rank).map(|_| rng.range(1, 4) as usize).collect();
         let mut acc = int_tensor(rank, &dims, &mut rng);
         trace.push(json!({"event": "Reset", "run": run, "tensor": spec_json(&acc)}));
+        let mut _background = None;
+        if run % 10 == 1 {
+            let kind = crate::disturb::KINDS[(run / 10) % crate::disturb::KINDS.len()];
+            if kind == "concurrent_learn" {
+                _background = Some(crate::disturb::Background::start());
+                rep.count("other_activity_as_meant", 1);
+            } else if crate::disturb::run(kind) {
+                rep.count("other_activity_as_meant", 1);
+            } else {
+                rep.count(&format!("other_activity_not_as_meant_{}", kind), 1);
+            }
+            trace.push(crate::disturb::event(kind));
+        }
         for _ in 0..rng.range(1, 4) {
             let op = *rng.pick(&["add", "sub", "mul", "hadamard"]);
             let mismatch = rng.below(5) == 0;
